@@ -49,9 +49,10 @@ def oracle(case, out):
     tag, res = synprops.parse_out(out)
     if tag != 'ok':
         return 'parser did not return (%s): %s' % (tag, out[:160])
-    if res[0] != res[1]:
+    same = sexp.loads(out)[6]
+    if same[1] != b'true':
         return 'full parser: borrowed and owned input disagree'
-    if res[2] != res[3]:
+    if same[2] != b'true':
         return 'runtime parser: borrowed and owned input disagree'
     return None
 
